@@ -18,7 +18,8 @@ RULE = ('all tree shapes with <= 5 entries and >= 2 directories x {bfs, dfs} x {
         'entries}, root itself failing alone and as one of two roots, deviation 2 (thorough) = every pair of directories; '
         'every file of a content tree x {chmod 000 as uid 65534, injected open EACCES, read EIO after n bytes with n across '
         'the 8K/32K/64K buffers}, dangling links, an archive with a member that cannot be opened; output side: six formats x four result paths x outputs of 0..~2300 bytes x '
-        'filler-name alignment sweep x EVERY close offset 0..L, and 8-20 KiB outputs x 64 alignments x offsets around every 1K/4K/8K/16K buffer boundary; non-trivial = a fault or close offset was actually exercised')
+        'filler-name alignment sweep x EVERY close offset 0..L, and 8-20 KiB outputs x 64 alignments x offsets around every 1K/4K/8K/16K buffer boundary; non-trivial = a fault or close offset was actually exercised'
+        '; statistics (avg, var, stddev, min, max) over the readable rows; a date column compared with a column without value; a damaged ID3 tag')
 ASSUMPTIONS = ['faults the OS cannot produce on demand are injected through the LD_PRELOAD shim; real permission faults use setpriv uid 65534',
                'rows inside a failing directory are unspecified (only containment in the fault-free rows is required)',
                'a content-derived cell of an unreadable file must be empty (or false for is_shebang)']
